@@ -225,7 +225,7 @@ func (h *harness) report(c Case, v *verdict) {
 		eval = h.evalFresh
 		if vh, err := h.evalFresh(&cur); err == nil && vh.signature() == sig {
 			curV = vh
-			stateNote = "[state-dependent: alone in a fresh process the request is answered " + va.realObs + "] "
+			stateNote = "state-dependent"
 		} else {
 			stateNote = "[state-dependent: alone in a fresh process the request is answered " + va.realObs + "; the recorded history (earlier requests of its family) does not reproduce it in a fresh process, the cause lies further back in the run] "
 			eval = nil
@@ -260,6 +260,13 @@ func (h *harness) report(c Case, v *verdict) {
 			refFail = true
 		} else {
 			docFail = true
+		}
+	}
+	if stateNote == "state-dependent" {
+		stateNote = "[state-dependent] "
+		alone := Case{World: cur.World, Req: cur.Req}
+		if va, err := h.evalFresh(&alone); err == nil {
+			stateNote = "[state-dependent: alone in a fresh process the request is answered " + va.realObs + "] "
 		}
 	}
 	what := stateNote + curV.what()
@@ -577,6 +584,9 @@ func main() {
 		if err != nil {
 			fmt.Fprintln(os.Stderr, "replay:", err)
 			os.Exit(2)
+		}
+		for i, b := range c.Before {
+			fmt.Printf("history %d: %s %q accept=%q query=%q body=%q\n", i+1, b.Req.Method, b.Req.Path, b.Req.Accept, b.Req.RawQuery, b.Req.Body)
 		}
 		fmt.Printf("replay: %s %q accept=%q query=%q body=%q\n", c.Req.Method, c.Req.Path, c.Req.Accept, c.Req.RawQuery, c.Req.Body)
 		fmt.Printf("implementation: %s\nraw body:       %s\nmodel:          %s\nRefStatus: go=%d lean=%d\n", v.realObs, v.real.Body, v.modelObs, v.goRef, v.leanRef)
